@@ -12,7 +12,7 @@ GEN = convprop.MODEL_TABLES
 # several representatives per kind: besides an ordinary one, the values that Python's == identifies with the members of
 # the literal and enum targets below (5.0 == 5, (1+0j) == 1 == True, 0 == False) -- a lookup by == must not let them through
 REPS = {'none': [None], 'bool': [True, False], 'int': [5, 1, 0], 'float': [2.5, 5.0, 1.0, 0.0], 'complex': [1j, 5 + 0j, 1 + 0j],
-        'str': ['x'], 'bytes': [b'x'], 'bytearray': [bytearray(b'x')], 'list': [[5]], 'tuple': [(5,)], 'dict': [{'x': 5}]}
+        'str': ['x'], 'bytes': [b'x'], 'bytearray': [bytearray(b'x')], 'list': [[5]], 'tuple': [(5,)], 'dict': [{'x': 5}, {5: 'x'}, {}]}
 NUM = {'bool', 'int', 'float', 'complex'}
 # the matrix, from the property text (independent of Coq's strict_ok; both are compared with pane)
 ACCEPT = {
@@ -63,7 +63,9 @@ def matrix_cases(rng):
     out = []
     for tname, tt in targets().items():
         for kname, vs in REPS.items():
-          for v in vs:
+          for vi, v in enumerate(vs):
+            if kname == 'dict' and vi > 0 and 'dict' in ACCEPT[tname]:
+                continue        # the extra mappings ({5: 'x'}, {}) are for the targets that must refuse every mapping
             for label, term, val in contexts(tt, v):
                 try:
                     b = terms.build(term, rng)
